@@ -13,6 +13,9 @@ From Frugal.gen Require Import Params.
 From Frugal.proofs Require Import TagsProofs TagsStruct.
 From Coq Require Import Sorted Permutation.
 From Frugal.props Require Import Examples.
+From Frugal Require Import TypeCache CacheChecks.
+From Frugal.gen Require Import CacheKey.
+From Frugal.proofs Require Import GenCacheKey TypeCacheProofs.
 Import ListNotations.
 
 (* every spelling of a schema type parses to that schema type, whatever follows *)
@@ -128,3 +131,21 @@ Theorem C12_annotation_follows_go_type : forall vt annot def allow d rest,
   parse_type vt annot def allow = ROk (d, rest) -> go_shape vt d.
 Proof. exact parse_type_shape. Qed.
 Print Assumptions C12_members.
+
+(* ---- the process-wide type-node cache (internal/reflect/ttype.go newTType; TypeCache.v) ----
+   keyed by (x.String(), x.S) -- read from the source on every run (cache_key_ok) -- it is
+   transparent: over ANY history of requests the node handed out for a (Go type, parsed Thrift type)
+   is the one a fresh process would build, with the schema type the tags say.  (Without the printed
+   Thrift type in the key a named int64 registered first as enum stays an enum for the whole
+   process: TypeCacheProofs.cache_opaque_without_T.) *)
+Theorem C12_type_cache_transparent : forall reqs, cache_key_ok = true -> Forall shaped reqs ->
+  snd (serve ttypes_key_has_T ttypes_key_has_S [] reqs) = map (fun r => node_of (fst r) (snd r)) reqs.
+Proof. exact cache_transparent_src. Qed.
+
+Theorem C12_type_cache_schema : forall reqs, Forall shaped reqs ->
+  map node_ty (snd (serve true true [] reqs)) = map (fun r => ty_of (snd r)) reqs.
+Proof. exact cache_transparent_ty. Qed.
+
+Theorem C12_cache_key : cache_key_ok = true.
+Proof. exact cache_key_ok_holds. Qed.
+Print Assumptions C12_type_cache_transparent.
